@@ -88,3 +88,15 @@ Fixpoint pr (dot : bool) (lvl : nat) (r : re) : list tok :=
   | RCat a b => let s := pr dot 2 a ++ (if dot then [TConcat] else []) ++ pr dot 1 b in if Nat.leb lvl 1 then s else TLp :: s ++ [TRp]
   | RAlt a b => let s := pr dot 1 a ++ TUnion :: pr dot 0 b in if Nat.eqb lvl 0 then s else TLp :: s ++ [TRp]
   end.
+
+(* Regex.__repr__ / get_str_repr: every operator application is printed between parentheses, "(a.b)", "(a|b)", "(a)*";
+   the empty language is the empty text *)
+Fixpoint pr_py (r : re) : list tok :=
+  match r with
+  | REmpty => []
+  | REps => [TEps]
+  | RSym a => [TSym a]
+  | RCat a b => TLp :: pr_py a ++ TConcat :: pr_py b ++ [TRp]
+  | RAlt a b => TLp :: pr_py a ++ TUnion :: pr_py b ++ [TRp]
+  | RStar a => TLp :: pr_py a ++ [TRp; TStar]
+  end.
